@@ -737,3 +737,38 @@ Proof.
     destruct k as [|k]; [now right|]. left.
     destruct (NW (S (S k)) mk) as [H|H]; [simpl; rewrite St; exact Hk|exact H|discriminate].
 Qed.
+
+(* ---- what the code did before the repairs (witnesses, replayed on the real code by the driver) ---- *)
+Definition wit_key (i : N) (n : N) : bytes := construct_data_key i 1 0 (new_tkey 187 (be_enc 8 n)).
+Definition wit_store : store :=
+  [(wit_key 1 1, [11]); (wit_key 1 8, [12]); (wit_key 2 1, [21]); (wit_key 2 8, [22])].
+
+(* DeleteAll queued the iterator's key buffer: dropping instance 1 removes both entries of
+   instance 2 and keeps both entries of instance 1 *)
+Lemma delete_all_aliased_witness :
+  sorted wit_store /\
+  delete_all_aliased (delete_all_range_unversioned_fixed 1) wit_store
+    = Some [(wit_key 1 1, [11]); (wit_key 1 8, [12])] /\
+  delete_data_instance 1 wit_store = [(wit_key 2 1, [21]); (wit_key 2 8, [22])].
+Proof.
+  split; [|split; vm_compute; reflexivity].
+  repeat constructor; vm_compute; reflexivity.
+Qed.
+
+(* getKeyVersions is a prefix scan: a read of keyvalue key "a" also sees the entry of "a\000b" *)
+Definition wit_nul_store : store :=
+  [(construct_data_key 1 1 0 (kv_tkey [97]), [65]); (construct_data_key 1 1 0 (kv_tkey [97; 0; 98]), [66])].
+Lemma get_key_versions_inexact_witness :
+  sorted wit_nul_store /\
+  get_key_versions 1 (kv_tkey [97]) wit_nul_store
+    = [construct_data_key 1 1 0 (kv_tkey [97]); construct_data_key 1 1 0 (kv_tkey [97; 0; 98])] /\
+  get_key_versions_exact 1 (kv_tkey [97]) wit_nul_store = [construct_data_key 1 1 0 (kv_tkey [97])].
+Proof.
+  split; [|split; vm_compute; reflexivity].
+  repeat constructor; vm_compute; reflexivity.
+Qed.
+
+(* the id counter is a uint32: after 2^32-1 comes 0 *)
+Lemma new_instance_id_wraps :
+  new_instance_id 1 (2 ^ 32 - 1) [] = Some (2 ^ 32 - 1, 0) /\ new_instance_id 1 0 [] = Some (0, 1).
+Proof. split; reflexivity. Qed.
